@@ -314,6 +314,24 @@ def run(ctx, rep):
                            "differ only in case no longer meet" % A.src(key), ctx.loc(x))
     rep.floor("R18.4", "table accesses / helper calls in the cmd_* methods", n4, 5)
 
+    # loops whose body removes entries must iterate over a copy
+    for mname, m in sorted(rs.methods.items()):
+        if not mname.startswith("cmd_"):
+            continue
+        for lp in [n for n in A.walk(m.node) if isinstance(n, ast.For)]:
+            removes = A.find_calls(lp, "self._remove_service") or [x for x in A.walk(lp) if isinstance(x, ast.Delete)]
+            if not removes or "self.services" not in A.src(lp.iter):
+                continue
+            it = lp.iter
+            copy_ok = isinstance(it, ast.Call) and A.call_name(it) in ("list", "tuple", "sorted", "set", "frozenset")
+            if isinstance(it, ast.Name):
+                copy_ok = False
+            rep.ob("R18.4", "%s: a loop that removes entries iterates over a copy of the table" % mname, copy_ok,
+                   "for ... in %s" % A.src(it) if copy_ok else
+                   "`for %s in %s` removes entries of the table it is iterating: the first removal that empties a name raises "
+                   "RuntimeError (dictionary changed size), the command stops half-way and the remaining names keep the server"
+                   % (A.src(lp.target), A.src(it)), ctx.loc(lp))
+    # loops over a local bound to a copy
     # ------------------------------------------------------------------ R18.5
     fa = ctx.func(RS + "._add_service")
     ga = ctx.cfg(fa, raises="default")
